@@ -116,6 +116,22 @@ Section DqnIter.
   Qed.
 End DqnIter.
 
+(* SAC.iteration (sac.py) with SAC.per_iteration, _soft_update_targets and AbstractAlgorithmState.next inlined; sac_train is an oracle
+   whose CALL is checked by the translator: it is handed the buffer of the new step state, the current networks / temperature, the
+   PRE-increment iteration count (the count the gating of gen_sactrain_gating refers to) and the train key.  The counter advances by one,
+   the critics / temperature are the ones sac_train returned, and each target critic is moved exactly once, towards the NEW online critic:
+   theta' <- tau * theta_new + (1 - tau) * theta' *)
+Theorem gen_saciter_eq_model {SS X OS BUF CB SCB : Type} (N count : nat) collect1 collectN (ss_buf : SS -> BUF) (ss_cb : SS -> SCB)
+        (cb_iter : CB -> Z -> SCB -> X -> OS -> kpath -> CB) (ss : SS) (pol pol' : X) (opt opt' : OS) (cbs : CB) (tau q1 q1' q2 q2' t1 t2 la la' : R) (k : kpath) :
+  let G := fun (Y : Type) (f : forall SS X OS BUF CB SCB : Type, nat -> nat -> (X -> SS -> kpath -> SS) -> (X -> SS -> list kpath -> SS) -> (SS -> BUF) -> (SS -> SCB) ->
+                       (CB -> Z -> SCB -> X -> OS -> kpath -> CB) -> SS -> X -> X -> OS -> OS -> CB -> R -> R -> R -> R -> R -> R -> R -> R -> R -> kpath -> Y) =>
+             f SS X OS BUF CB SCB N count collect1 collectN ss_buf ss_cb cb_iter ss pol pol' opt opt' cbs tau q1 q1' q2 q2' t1 t2 la la' k in
+  G Z (@gen_saciter_count) = (Z.of_nat count + 1)%Z /\
+  G R (@gen_saciter_qf1) = q1' /\ G R (@gen_saciter_qf2) = q2' /\ G R (@gen_saciter_log_alpha) = la' /\
+  G R (@gen_saciter_t1) = polyak tau q1' t1 /\ G R (@gen_saciter_t2) = polyak tau q2' t2.
+Proof. cbv zeta. repeat split; reflexivity. Qed.
+
+Print Assumptions gen_saciter_eq_model.
 Print Assumptions gen_dqniter_eq_model.
 Print Assumptions gen_learn_eq_spec.
 Print Assumptions gen_learn_iteration_count.
